@@ -482,6 +482,23 @@ def _(ex):
         KL.CUR["ex"] = None
 
 
+class _Raised(object):
+    """what an encoder call produced when the real code raised: compares unequal to every byte string"""
+
+    def __init__(self, e):
+        self.e = e
+
+    def hex(self):
+        return "<raised %s: %s>" % (type(self.e).__name__, self.e)
+
+
+def _safe(fn, *a):
+    try:
+        return fn(*a)
+    except Exception as e:
+        return _Raised(e)
+
+
 def c09_bounded(tier, seed):
     """bounded stand-in: exact bytes against the specification encoders and all round trips (incl. the PEM armour), on the real curves"""
     import ecdsa
@@ -511,8 +528,8 @@ def c09_bounded(tier, seed):
                 found.setdefault(name, (args, obs))
             for enc, pb in pbs.items():
                 n += 1
-                if vk.to_string(enc) != pb:
-                    bad("keys.VerifyingKey.to_string#is-the-SEC1-octet-string", dict(self=Recipe("ecdsa.SigningKey.from_secret_exponent(%d, ecdsa.curves.%s).verifying_key" % (d, cv.name)), encoding=enc), "got %s" % vk.to_string(enc).hex())
+                if _safe(vk.to_string, enc) != pb:
+                    bad("keys.VerifyingKey.to_string#is-the-SEC1-octet-string", dict(self=Recipe("ecdsa.SigningKey.from_secret_exponent(%d, ecdsa.curves.%s).verifying_key" % (d, cv.name)), encoding=enc), "got %s" % _safe(vk.to_string, enc).hex())
                 try:
                     if ecdsa.VerifyingKey.from_string(pb, cv) != vk:
                         bad("lemma:C09.public_key_string_roundtrip#same-point", dict(string=pb, curve=Recipe("ecdsa.curves.%s" % cv.name)), "reloaded key differs")
@@ -521,8 +538,8 @@ def c09_bounded(tier, seed):
                 if enc == "raw":
                     continue
                 spki_ = S.enc_seq(S.enc_seq(pkoid + coid) + S.enc_bits(pb, 0))
-                if vk.to_der(enc) != spki_:
-                    bad("keys.VerifyingKey.to_der#is-canonical-SubjectPublicKeyInfo", dict(self=Recipe("ecdsa.SigningKey.from_secret_exponent(%d, ecdsa.curves.%s).verifying_key" % (d, cv.name)), point_encoding=enc), "got %s" % vk.to_der(enc).hex())
+                if _safe(vk.to_der, enc) != spki_:
+                    bad("keys.VerifyingKey.to_der#is-canonical-SubjectPublicKeyInfo", dict(self=Recipe("ecdsa.SigningKey.from_secret_exponent(%d, ecdsa.curves.%s).verifying_key" % (d, cv.name)), point_encoding=enc), "got %s" % _safe(vk.to_der, enc).hex())
                 for loader, blob in ((ecdsa.VerifyingKey.from_der, spki_), (ecdsa.VerifyingKey.from_pem, _pem(spki_, "PUBLIC KEY"))):
                     n += 1
                     try:
@@ -536,10 +553,12 @@ def c09_bounded(tier, seed):
                 p8 = S.enc_seq(S.enc_integer(1) + S.enc_seq(pkoid + coid) + S.enc_octets(ecpk))
                 for fmt, blob, hdr in (("ssleay", ecpk, "EC PRIVATE KEY"), ("pkcs8", p8, "PRIVATE KEY")):
                     n += 1
-                    if sk.to_der(enc, fmt) != blob:
-                        bad("keys.SigningKey.to_der#is-canonical-ECPrivateKey-or-PKCS8", dict(self=Recipe("ecdsa.SigningKey.from_secret_exponent(%d, ecdsa.curves.%s)" % (d, cv.name)), point_encoding=enc, format=fmt), "got %s" % sk.to_der(enc, fmt).hex())
-                    for loader, b2 in ((ecdsa.SigningKey.from_der, blob), (ecdsa.SigningKey.from_pem, _pem(blob, hdr)), (ecdsa.SigningKey.from_pem, sk.to_pem(enc, fmt))):
+                    if _safe(sk.to_der, enc, fmt) != blob:
+                        bad("keys.SigningKey.to_der#is-canonical-ECPrivateKey-or-PKCS8", dict(self=Recipe("ecdsa.SigningKey.from_secret_exponent(%d, ecdsa.curves.%s)" % (d, cv.name)), point_encoding=enc, format=fmt), "got %s" % _safe(sk.to_der, enc, fmt).hex())
+                    for loader, b2 in ((ecdsa.SigningKey.from_der, blob), (ecdsa.SigningKey.from_pem, _pem(blob, hdr)), (ecdsa.SigningKey.from_pem, _safe(sk.to_pem, enc, fmt))):
                         try:
+                            if isinstance(b2, _Raised):
+                                raise b2.e
                             k2 = loader(b2)
                             ok = k2 == sk and k2.curve is cv and k2.to_string() == d.to_bytes(bl, "big")
                             obs = "reloaded key differs"
@@ -548,8 +567,8 @@ def c09_bounded(tier, seed):
                         if not ok:
                             bad("keys.SigningKey.from_der#private-key-roundtrip", dict(string=b2), obs)
             n += 1
-            if sk.to_string() != d.to_bytes(bl, "big") or ecdsa.SigningKey.from_string(sk.to_string(), cv) != sk:
-                bad("keys.SigningKey.to_string#fixed-length-big-endian-scalar", dict(self=Recipe("ecdsa.SigningKey.from_secret_exponent(%d, ecdsa.curves.%s)" % (d, cv.name))), "got %s" % sk.to_string().hex())
+            if _safe(sk.to_string) != d.to_bytes(bl, "big") or _safe(lambda: ecdsa.SigningKey.from_string(sk.to_string(), cv)) != sk:
+                bad("keys.SigningKey.to_string#fixed-length-big-endian-scalar", dict(self=Recipe("ecdsa.SigningKey.from_secret_exponent(%d, ecdsa.curves.%s)" % (d, cv.name))), "got %s" % _safe(sk.to_string).hex())
     # PEM armour on its own: all residues of the 48-byte line quantum
     from ecdsa import der as D_
     for ln in range(0, 200 if tier == "quick" else 400):
